@@ -152,7 +152,7 @@ package nsqd
 // deferred map and handed to put - unless the map pop is refused (someone else won it: the scan stops);
 // a closing channel is not touched.
 //@ func (c *Channel) processDeferredQueue(t int64) bool
-//@   props C04 C01 C13
+//@   props C04 C01 C13 C05
 //@   requires flowChan(c)
 //@   ensures[exiting-touches-nothing] old(c.exitFlag) == 1 ==> !result && kDefShifts == old(kDefShifts) && kDefPops == old(kDefPops) && chanPuts == old(chanPuts) && backendWrites == old(backendWrites)
 //@   ensures[every-shifted-popped] kDefPops - old(kDefPops) == kDefShifts - old(kDefShifts)
@@ -184,7 +184,7 @@ package nsqd
 // handed back to the queue; the consumer is told at most once per timed-out message; a closing channel is
 // not touched.
 //@ func (c *Channel) processInFlightQueue(t int64) bool
-//@   props C04 C01 C13 C02
+//@   props C04 C01 C13 C02 C19 C05
 //@   requires flowChan(c)
 //@   ensures[exiting-touches-nothing] old(c.exitFlag) == 1 ==> !result && kIFShifts == old(kIFShifts) && kPops == old(kPops) && chanPuts == old(chanPuts) && backendWrites == old(backendWrites) && c.timeoutCount == old(c.timeoutCount) && kConsTimedOut == old(kConsTimedOut)
 //@   ensures[every-shifted-popped] kPops - old(kPops) == kIFShifts - old(kIFShifts)
